@@ -129,6 +129,15 @@ func (m *Uint16Accessor) BpGetByte(di *DataIndexer, rshift int) byte {
 func (m *Uint16Accessor) BpGetAccessor(di *DataIndexer) Accessor { return nil }
 func (m *Uint16Accessor) BpProcessInt(di *DataIndexer)           { return }
 
+// NilAccessor implements Accessor that drops everything written to it, it's
+// used to walk over data that should be skipped during decoding.
+type NilAccessor struct{}
+
+func (m *NilAccessor) BpSetByte(di *DataIndexer, lshift int, b byte) {}
+func (m *NilAccessor) BpGetByte(di *DataIndexer, rshift int) byte    { return byte(0) }
+func (m *NilAccessor) BpGetAccessor(di *DataIndexer) Accessor        { return m }
+func (m *NilAccessor) BpProcessInt(di *DataIndexer)                  { return }
+
 // DataIndexer contains the argument to index data from current accessor.
 type DataIndexer struct {
 	fnumber int
@@ -204,8 +213,6 @@ func (t *Array) Process(ctx *ProcessContext, di *DataIndexer, accessor Accessor)
 	di.IndexStackUp()
 	defer di.IndexStackDown()
 
-	// Record current number of bits processed.
-	i := ctx.i
 	// Opponent array capacity if extensible set.
 	ahead := uint16(0)
 
@@ -226,12 +233,12 @@ func (t *Array) Process(ctx *ProcessContext, di *DataIndexer, accessor Accessor)
 		t.elementProcessor.Process(ctx, di, accessor)
 	}
 
-	// Skip redundant bits post decoding.
+	// Skip redundant elements post decoding: the opponent's array holds
+	// `ahead` elements, walk over those beyond our capacity and drop them.
 	if t.extensible && !ctx.isEncode {
-		// Skip redundant bits.
-		ito := i + int(ahead)*t.capacity
-		if ito >= ctx.i {
-			ctx.i = ito
+		nilAccessor := &NilAccessor{}
+		for k := t.capacity; k < int(ahead); k++ {
+			t.elementProcessor.Process(ctx, di, nilAccessor)
 		}
 	}
 }
